@@ -26,7 +26,7 @@ RULE = ("Hypothesis-generated builder programs (nested calls f(g(x)+1, y=h(z)), 
         "own guards and loops, the ones before it only preparing the valuation, so variables named like generated "
         "temporaries are read-only inputs) goes through the same pipelines: every original variable must "
         "end with the same value, the multiset of (user function, arguments) calls must be equal, no variable may be "
-        "read before it is set, statement ids must stay unique. Non-trivial = the pass changed the tree and the phase "
+        "read before it is set, statement ids must stay unique; a guarded statement rewritten on its own must do nothing at all from a state in which its guard is false. Non-trivial = the pass changed the tree and the phase "
         "contains a call, a conditional expression or a self-dependency; distinct by (program, pipeline).")
 ASSUMPTIONS = ["user functions are pure; built-ins are not part of the call log",
                "exact arithmetic; a phase is skipped when the original tree leaves the exact domain",
